@@ -293,8 +293,12 @@ def apply_prop_filter(el, ab):
 async def apply_filter(el, resource):
     """Compile a filter element into a Python function."""
     if el is None or not list(el):
-        # Empty filter, let's not bother parsing
-        return lambda x: True
+        # Empty filter, let's not bother parsing: every address object
+        # resource matches, but nothing else does.
+        try:
+            return resource.get_content_type() == "text/vcard"
+        except KeyError:
+            return False
     ab = await addressbook_from_resource(resource)
     if ab is None:
         return False
